@@ -24,9 +24,9 @@ TRUSTED = [
 ]
 RULE = ('signed Data / Interest packets as in C01 with every shipped signer and its matching verifier; per packet: the bytes '
         'given to the signer, the ranges parse_* reports and the signed portion computed by an independent strict reader '
-        'are compared, the verifier must accept, and then 10 (quick) / 40 (thorough) tampered copies are parsed and '
+        'are compared, the verifier must accept, and then 10 (quick) / 24 (thorough) tampered copies are parsed and '
         'verified: single-byte substitutions at sampled positions, truncations, and TLV-level edits (element dropped, '
-        'duplicated, swapped, unknown element inserted, length edited), plus 6 (quick) / 21 (thorough) edits aimed at the '
+        'duplicated, swapped, unknown element inserted, length edited), plus 6 (quick) / 13 (thorough) edits aimed at the '
         'Name (component inserted - also right behind / before the digest component -, deleted, split, digest component '
         'moved), SignatureInfo / KeyLocator (SignatureType changed to another real type, unknown element inserted, KeyLocator '
         'name extended), and the signature elements (second SignatureInfo / SignatureValue, signature value truncated to a '
@@ -54,23 +54,44 @@ DESIGN_REF = 'DESIGN.md section 7, C02'
 
 # ------------------------------------------------------------------------------------- cases
 def cases(rng, tier):
-    n = 200 if tier == 'quick' else 5000
-    k = 10 if tier == 'quick' else 40
+    n = 200 if tier == 'quick' else 2500
+    k = 10 if tier == 'quick' else 24
     for _ in range(n):
         c = PK.gen_data_case(rng, tier) if rng.random() < 0.5 else PK.gen_interest_case(rng, tier)
         if c['signer'][0] == 'none' and rng.random() < 0.8:
             c['signer'] = rng.choice([['digest', 1], ['hmac'], ['ec256'], ['ed25519']])
         if c['signer'][0] == 'digest' and c['pkt'] == 'interest':
             c['signer'] = ['digest', 1]
-        # keep payloads moderate: every tampered copy is parsed and verified
+        # keep packets moderate (a few hundred bytes, at most ~2 kB): every tampered copy is parsed, verified and its
+        # observation kept until the end of the run, so a 64 kB name would cost tens of MB per case
         for key in ('content', 'app'):
-            if c.get(key) and c[key] > 3000:
+            if c.get(key) and c[key] > 1500:
                 c[key] = c[key] % 600
+        _cap_names(c)
         c['tamper'] = [[rng.choice(['subst', 'subst', 'subst', 'trunc', 'dup', 'del', 'swap', 'ins', 'len', 'digestcut']),
                         rng.getrandbits(30), rng.getrandbits(8)] for _ in range(k)]
         # TLV-level edits aimed at the Name, SignatureInfo / KeyLocator and the signature elements
         c['tamper'] += [[rng.choice(TARGETED), rng.getrandbits(30), rng.getrandbits(8)] for _ in range(k // 2 + 1)]
         yield c
+
+
+def _cap_list(comps, limit=700):
+    """drop the components that make a name longer than `limit` bytes (the 65536 boundaries belong to C01)"""
+    if sum(len(x) for x in comps) // 2 <= limit:
+        return comps
+    return [x for x in comps if len(x) // 2 <= 300][:8]
+
+
+def _cap_names(c):
+    c['name'] = _cap_list(c['name'])
+    if c.get('key_name') is not None:
+        c['key_name'] = _cap_list(c['key_name'])
+    if c['pkt'] == 'interest':
+        fh = [_cap_list(n, 400) for n in c['param']['forwarding_hint']][:6]
+        c['param'] = dict(c['param'], forwarding_hint=fh)
+    sg = c['signer']
+    if sg[0] == 'custom' and sg[3].get('kl') and sg[3]['kl'][0] == 'name':
+        sg[3]['kl'][1] = _cap_list(sg[3]['kl'][1])
 
 
 TARGETED = ['comp_ins', 'comp_ins', 'digest_move', 'comp_split', 'comp_del', 'sigtype', 'sig2', 'si_ins', 'kl_comp', 'tail', 'sigval', 'sigval']
@@ -415,12 +436,17 @@ def run_impl(case):
         if w2 == wire or w2 in seen:
             continue
         seen.add(w2)
-        c = {'wire': w2.hex(), 'parsed': PK.parse_packet(case['pkt'], w2), 'spec': _hexspec(spec_portions(case['pkt'], w2)),
+        c = {'wire': w2.hex(), 'parsed': _slim(PK.parse_packet(case['pkt'], w2)), 'spec': _hexspec(spec_portions(case['pkt'], w2)),
              'verify': _verify(case, w2), 'verify2': _verify_checker(case, w2)}
         if case['pkt'] == 'interest':
             c['digest_ok'] = _digest_check(w2)
         out['copies'].append(c)
     return out
+
+
+def _slim(p):
+    """of a tampered copy only what the oracle and the model comparison read is kept"""
+    return p if p['res'] != 'ok' else {k: p[k] for k in ('res', 'values', 'SC', 'SV', 'DC', 'DV')}
 
 
 def _hexspec(s):
